@@ -75,6 +75,7 @@ func cmdRun(argv []string) int {
 	verif := fs.String("verif", "", "verif dir (default: dir of binary/..)")
 	noReplay := fs.Bool("no-replay", false, "skip native replay (debug)")
 	verbose := fs.Bool("v", false, "verbose")
+	casesOv := fs.String("cases", "", "debug: JSON list of cases replacing the tier's cases (evidence goes to evidence/_debug)")
 	fs.Parse(argv)
 	if *tier == "" {
 		*tier = os.Getenv("VERIF_TIER")
@@ -124,6 +125,7 @@ func cmdRun(argv []string) int {
 	sort.Strings(pkgDirs)
 
 	ev := newEvidence(*prop, *tier, seed)
+	ev.debug = *casesOv != "" || *only != ""
 	w, err := loadWorld(*repo, *verif, pkgDirs)
 	if err != nil {
 		// the harness overlay does not type-check against the tree (or the tree is broken): inconclusive
@@ -140,6 +142,14 @@ func cmdRun(argv []string) int {
 		tc := cfg.Quick
 		if *tier == "thorough" {
 			tc = cfg.Thorough
+		}
+		if *casesOv != "" {
+			var cs [][]int
+			if err := json.Unmarshal([]byte(*casesOv), &cs); err != nil {
+				fmt.Println("TOOL-ERROR: --cases:", err)
+				return 2
+			}
+			tc.Cases, tc.Ranges = cs, nil
 		}
 		hr := &harnessResult{cfg: cfg, inconclusive: map[string]int{}, unsupported: map[string]int{}, reach: map[string]int{},
 			fnsSeen: map[string]int{}, gwrites: map[string]bool{}, vioCount: map[string]int{}}
